@@ -284,6 +284,20 @@ def rule_parent(chk):
     cac = ctx.calls_to(lm, ca)
     chk.req(bool(cac), "C04.parent", "log_message:parent-from-current-action", chk.where(lm),
             good="action = current_action()", fail="log_message does not obtain the action from current_action()")
+    # the context-less arm builds a root action (empty level, fresh uuid) exactly when there is no current action
+    init_ = ctx.func("_action", "Action.__init__")
+    ctors = [(n, c) for n in cfgm.live for c, m in calls_in_node(n) if init_ in ctx.targets(lm, c)]
+    okroot = len(ctors) == 1
+    if okroot:
+        n_, c_ = ctors[0]
+        lvl = c_.args[2] if len(c_.args) > 2 else None
+        okroot = isinstance(lvl, ast.Call) and ((lvl.keywords and isinstance(lvl.keywords[0].value, ast.List) and not lvl.keywords[0].value.elts)
+                                                or (lvl.args and isinstance(lvl.args[0], ast.List) and not lvl.args[0].elts))
+        g_ = [(unparse(t.exprs[0]), lab) for t, lab in cfgm.guards_of(n_) if t.kind == "test"]
+        okroot = okroot and any(" is None" in e and lab == "true" for e, lab in g_)
+    chk.req(okroot, "C04.parent", "log_message:context-less-message-is-its-own-root", chk.where(lm),
+            good="without a current action: Action(logger, uuid4, TaskLevel(level=[]), ...) -- a one-message task",
+            fail="a message logged with no current action is not placed in a fresh root (empty level) of its own")
     installs = [n for n in iter_own_nodes(lm.node) if isinstance(n, (ast.With, ast.AsyncWith))]
     chk.req(not installs and not any(k == "set" for f, n, k, c in (var_uses(chk, var) if var else []) if f is lm),
             "C04.parent", "log_message:does-not-install", chk.where(lm),
